@@ -56,6 +56,10 @@ def make_fault(kind, message):
     failures) - the raised object, not its members, must be retrievable."""
     if kind == 0:
         return Injected(message)
+    if kind >= 5:
+        # an exception of a type the library itself catches somewhere for control flow ("no frames", "not found",
+        # "attribute missing"): raised by a HOOK it is still a fault of that hook and must be reported
+        return typed_fault(TYPED[(kind - 5) % len(TYPED)])(message)
     try:
         EG = ExceptionGroup  # noqa: F821 (builtin on 3.11+)
     except NameError:
@@ -66,7 +70,16 @@ def make_fault(kind, message):
     return EG(message, members)
 
 
+TYPED = [RuntimeError, IndexError, AttributeError, KeyError, ValueError, TypeError, LookupError, NotImplementedError]
 _igcache = {}
+
+
+def typed_fault(base):
+    c = _igcache.get(base)
+    if c is None:
+        c = type("Injected" + base.__name__, (base,), {})
+        _igcache[base] = c
+    return c
 
 
 def InjectedGroup(EG):
@@ -92,6 +105,7 @@ class Recorder(object):
         self.broken_steps = 0
         self.after = False
         self.injected = []  # (k, hook, exception, building_root, frame_arg)
+        self.via_outermost = set()
         self.installed = False
 
     def install(self):
@@ -123,6 +137,15 @@ class Recorder(object):
                         except Exception:
                             pass
                     rec.injected.append((k, hook, e, rec.building(), farg))
+                    if hook == "unwrap_stackitem":
+                        # call site of known finding K3: unwrapping on behalf of extract_outermost() called by the
+                        # contextlib glue (unwrap_generatorbased_contextmanager), which has no Stack to report into
+                        fr = sys._getframe(1)
+                        while fr is not None:
+                            if fr.f_code.co_name == "extract_outermost" and fr.f_back is not None and fr.f_back.f_code.co_name == "unwrap_generatorbased_contextmanager":
+                                rec.via_outermost.add(k)
+                                break
+                            fr = fr.f_back
                     raise e
                 return orig(*a, **kw)
 
@@ -259,6 +282,23 @@ class ProgramScenario(Scenario):
         self.b = driver.build(ctx, {"gcm": True, "es": True, "probe": False, "passive": False}, None)
         self.W = self.b.W
         self.W.abort = False
+        # unwrap_context_generator is consulted only for generator-based managers whose function has a hook
+        # registered: give a tape-chosen subset of the generated @contextmanager functions a benign one
+        # (returns None = no opinion, so the fault-free result is unchanged) - otherwise that seam never fires
+        self.ucg_codes = []
+        import re as _re
+        import stackscope as _ss
+        from stackscope import _customization as _cust
+
+        for name in sorted(n for n in self.b.ns if _re.match(r"^m\d+$", n)):
+            if ctx.tape.choose(2):
+                try:
+                    code = _ss.lowlevel.get_code(self.b.ns[name]) if hasattr(_ss.lowlevel, "get_code") else _cust.get_code(self.b.ns[name])
+                except Exception:
+                    continue
+                _ss.unwrap_context_generator.register(code, func=lambda frame, context: None)
+                self.ucg_codes.append(code)
+                ctx.stat("unwrap_context_generator_registered")
         want = 1 + ctx.tape.choose(4)
         self.reached = []
 
@@ -311,6 +351,12 @@ class ProgramScenario(Scenario):
         return self.root
 
     def close(self):
+        from ..world.registry import _unwrap_mp
+        import stackscope as _ss
+
+        reg = _unwrap_mp(_ss.unwrap_context_generator.registry)
+        for code in self.ucg_codes:
+            reg.pop(code, None)
         driver.cleanup(self.b)
         try:
             self.root.close() if not hasattr(self.root, "aclose") else None
@@ -682,9 +728,14 @@ def inject(ctx, scn, rec, ks, st0, stacks0, base_errors):
 
     rec.calls = []
     rec.injected = []
+    rec.via_outermost = set()
     rec.inject_at = set(ks)
     # what is raised: mostly a plain exception, sometimes an exception group
-    rec.fault_kind = dict((k, ctx.tape.weighted([8, 1, 1, 1, 1])) for k in ks)
+    rec.fault_kind = dict((k, ctx.tape.weighted([8, 1, 1, 1, 1, 4])) for k in ks)
+    for k in ks:
+        if rec.fault_kind[k] == 5:
+            rec.fault_kind[k] = 5 + ctx.tape.choose(len(TYPED))
+            ctx.stat("fault_is_builtin_typed")
     # a failing frame source may be a generator (finished once it raised) or an object that
     # fails on every later step too
     rec.persistent = ctx.tape.choose(3) == 2
@@ -718,13 +769,21 @@ def inject(ctx, scn, rec, ks, st0, stacks0, base_errors):
     inj = [x[2] for x in rec.injected]
     for (k, hook, exc, (item, depth), farg) in rec.injected:
         ctx.fault("hook_raises:" + hook)
-        if rec.fault_kind.get(k, 0):
+        if 0 < rec.fault_kind.get(k, 0) < 5:
             ctx.stat("fault_is_exception_group")
         ctx.cover(("c05", scn.kind, hook, min(k, 10), depth, len(ks)))
         if depth > 1:
             ctx.stat("fault_in_nested_stack")
         # where must it be reported?
         holders = [s for (s, d) in stacks if any(x is exc for x in errors_of(s, inj))]
+        if not holders and k in rec.via_outermost:
+            ctx.stat("fault_inside_glue_extract_outermost")
+            raise Violation(
+                "c05_fault_lost_in_glue_extract_outermost",
+                "%s scenario: exception injected at invocation %d (unwrap_stackitem, called for extract_outermost(mgr.gen) by the contextlib glue of a generator-based manager "
+                "with an unwrap_context_generator hook) is in no Stack.error of the result" % (scn.kind, k),
+                {"scenario": scn.kind, "hook": hook, "k": k, "depth": depth, "call_site": "unwrap_generatorbased_contextmanager -> extract_outermost"},
+            )
         if not holders:
             raise Violation(
                 "c05_fault_not_reported",
